@@ -42,6 +42,18 @@ import (
 type flakyVNode struct {
 	spec.VNode
 	failTokenGets *int
+	failTokenPuts *int
+}
+
+// Put fails the next N writes of client-token keys (the registration of a client
+// identity cannot be stored).
+func (f flakyVNode) Put(ctx context.Context, key, value []byte) error {
+	if f.failTokenPuts != nil && *f.failTokenPuts > 0 && strings.HasPrefix(string(key), "/tunnel/client/token/") {
+		*f.failTokenPuts--
+		simrt.Probe("token-store-fault")
+		return spec.ErrKVStaleOwnership
+	}
+	return f.VNode.Put(ctx, key, value)
 }
 
 func (f flakyVNode) Get(ctx context.Context, key []byte) ([]byte, error) {
@@ -88,6 +100,7 @@ type World struct {
 	certs         *scriptedCerts
 	proofs        map[string]cachedProof
 	failTokenGets int
+	failTokenPuts int
 }
 
 type Srv struct {
@@ -201,7 +214,7 @@ func (w *World) boot() bool {
 		s.ChordT = w.snet.NewTransport(&protocol.Node{Id: h.ID, Address: h.Name})
 		s.S = server.New(server.Config{
 			Logger: zap.NewNop(), ParentContext: w.ctx,
-			Chord:           spec.WrapRetryKV(flakyVNode{VNode: h.Node, failTokenGets: &w.failTokenGets}, 200*time.Millisecond, 4),
+			Chord:           spec.WrapRetryKV(flakyVNode{VNode: h.Node, failTokenGets: &w.failTokenGets, failTokenPuts: &w.failTokenPuts}, 200*time.Millisecond, 4),
 			TunnelTransport: s.TunT, ChordTransport: s.ChordT,
 			Apex: "apex.example.com", Acme: "acme.example.com",
 			Resolver: w.resolver, CertProvider: w.certs,
@@ -406,6 +419,28 @@ func (w *World) checkC25() {
 		return
 	}
 	host := g.(*protocol.GenerateHostnameResponse).GetHostname()
+	// a client with a valid certificate whose identity was never stored tries to register
+	// while the DHT cannot store its token: the registration fails, and the client is as
+	// unregistered afterwards as it was before
+	for _, c := range w.clients {
+		if c.Kind != "unregistered" || !w.r.Chance(0.7) {
+			continue
+		}
+		for _, s := range w.servers {
+			s.TunT.Connected[c.Identity.GetId()] = true
+		}
+		via := w.r.Intn(3)
+		w.failTokenPuts = 1 << 20
+		_, err := w.call(c, via, "RegisterIdentity", &protocol.RegisterIdentityRequest{})
+		w.failTokenPuts = 0
+		simrt.Probe("registration-with-failing-store")
+		if err == nil && len(w.kvGet(tun.ClientTokenKey(c.Token))) == 0 {
+			w.res.Violate("C25", "registration-acknowledged-but-not-stored", "RegisterIdentity succeeded although the identity could not be stored")
+		}
+		if err == nil {
+			c.Kind = "registered"
+		}
+	}
 	before := w.dump()
 	refused := 0
 	for _, c := range w.clients {
@@ -430,7 +465,8 @@ func (w *World) checkC25() {
 				// the token lookup itself fails (retryably) for longer than the retry budget
 				w.failTokenGets = 4 + w.r.Intn(4)
 			}
-			_, err := w.call(c, w.r.Intn(3), m, req.Interface())
+			via := w.r.Intn(3)
+			_, err := w.call(c, via, m, req.Interface())
 			w.failTokenGets = 0
 			if err == nil {
 				w.res.Violate("C25", "unauthenticated-call-served/"+c.Kind+"/"+m, "%s was served for a caller of kind %q (no verified, registered client identity)", m, c.Kind)
@@ -773,24 +809,56 @@ func (w *World) checkC51() {
 			w.res.Violate("C51", "endpoint-count", "ring of %d nodes: GetNodes at server %d returned %d endpoints", len(w.servers), si, len(nodes))
 		}
 	}
-	// a missing destination record of one of the offered nodes fails the call
-	if resp, err := w.call(c, 0, "GetNodes", &protocol.GetNodesRequest{}); err == nil && len(resp.(*protocol.GetNodesResponse).GetNodes()) > 1 {
-		second := resp.(*protocol.GetNodesResponse).GetNodes()[1]
-		var victim *Srv
-		for _, s := range w.servers {
-			if s.TunT.Identity().GetAddress() == second.GetAddress() {
-				victim = s
-			}
+	// every offered endpoint is taken from that node's published destination record - the asked
+	// node's own included: a missing record fails the call, and a record that names another
+	// tunnel endpoint is what the caller is offered
+	for si := range w.servers {
+		resp, err := w.call(c, si, "GetNodes", &protocol.GetNodesRequest{})
+		if err != nil {
+			continue
 		}
-		if victim != nil {
+		offered := resp.(*protocol.GetNodesResponse).GetNodes()
+		for pos, n := range offered {
+			var victim *Srv
+			for _, s := range w.servers {
+				if s.TunT.Identity().GetAddress() == n.GetAddress() {
+					victim = s
+				}
+			}
+			if victim == nil {
+				continue
+			}
 			key := tun.DestinationByChordKey(victim.ChordT.Identity())
 			old := w.kvGet(key)
-			w.cluster.Slots[0].Node.Delete(context.Background(), []byte(key))
-			if _, err := w.call(c, 0, "GetNodes", &protocol.GetNodesRequest{}); err == nil {
-				w.res.Violate("C51", "missing-record-tolerated", "GetNodes succeeded although the destination record of offered node %s is missing", victim.ChordT.Identity().GetAddress())
+			if len(old) == 0 {
+				continue
+			}
+			what := "another offered node"
+			if pos == 0 {
+				what = "the asked node itself"
+			}
+			if w.r.Chance(0.5) {
+				w.cluster.Slots[0].Node.Delete(context.Background(), []byte(key))
+				simrt.Sleep(150*time.Millisecond, "h:pace")
+				if _, err := w.call(c, si, "GetNodes", &protocol.GetNodesRequest{}); err == nil {
+					w.res.Violate("C51", "missing-record-tolerated", "GetNodes at server %d succeeded although the destination record of %s (%s) is missing", si, what, victim.ChordT.Identity().GetAddress())
+				}
+				simrt.Probe("missing-record")
+			} else {
+				moved := &protocol.Node{Id: victim.TunT.Identity().GetId(), Address: fmt.Sprintf("moved-%d.example:443", pos)}
+				buf, _ := (&protocol.TunnelDestination{Chord: victim.ChordT.Identity(), Tunnel: moved}).MarshalVT()
+				w.cluster.Slots[0].Node.Put(context.Background(), []byte(key), buf)
+				simrt.Sleep(150*time.Millisecond, "h:pace")
+				if resp2, err := w.call(c, si, "GetNodes", &protocol.GetNodesRequest{}); err == nil {
+					got := resp2.(*protocol.GetNodesResponse).GetNodes()
+					if pos >= len(got) || got[pos].GetAddress() != moved.GetAddress() {
+						w.res.Violate("C51", "endpoint-not-from-record", "the destination record of %s (%s) names tunnel endpoint %s, but GetNodes at server %d offers %v", what, victim.ChordT.Identity().GetAddress(), moved.GetAddress(), si, got)
+					}
+				}
+				simrt.Probe("rewritten-record")
 			}
 			w.cluster.Slots[0].Node.Put(context.Background(), []byte(key), old)
-			simrt.Probe("missing-record")
+			simrt.Sleep(150*time.Millisecond, "h:pace")
 		}
 	}
 }
